@@ -1,8 +1,210 @@
 import Driver.Proto
+import AdaptaVerif.Model.Compound
+import AdaptaVerif.Check.Layout
+/-
+Driver mode c07.
+  gen-*   : tie. Re-generate variables and separation constraints with the model and compare them
+            exactly with what libcola's generateVariables/generateSeparationConstraints produced.
+  fd*/cml*: end-to-end. Final rectangles of ConstrainedFDLayout / ConstrainedMajorizationLayout:
+            every user constraint not reported unsatisfiable holds within 1e-4; all coordinates finite.
+  sizes   : widths/heights (as the doubles `width()`/`height()`) unchanged bit for bit.
+-/
 namespace Driver.C07
+open Driver AdaptaVerif.Num AdaptaVerif.Model.Compound AdaptaVerif.Check.Layout
 
-def run (_args : List String) : IO UInt32 := do
-  IO.eprintln "driver mode c07: not implemented yet"
-  return 2
+def tolC07 : Rat := 1 / 10000
+
+/-- parse `k` (node, offset) pairs starting at token `i` -/
+def parseOffs (t : Array String) (i k : Nat) : Option (List (Nat × Rat)) :=
+  (List.range k).mapM fun j => do
+    let off ← num? (t[i + 2 * j + 1]?.getD "")
+    pure (nat! (t[i + 2 * j]?.getD "0"), off)
+
+def parsePairs (t : Array String) (i k : Nat) : List (Nat × Nat) :=
+  (List.range k).map fun j => (nat! (t[i + 2 * j]?.getD "0"), nat! (t[i + 2 * j + 1]?.getD "0"))
+
+/-- one `cc <idx> <kind> …` line (without the leading `cc`) -/
+def parseCC (rects : Array Rect) (t : Array String) : Option CC := do
+  let kind ← t[1]?
+  let tk (i : Nat) : String := t[i]?.getD ""
+  let d := Dim.ofNat' (nat! (tk 2))
+  match kind with
+  | "boundary" => do
+    let pos ← num? (tk 3)
+    let offs ← parseOffs t 5 (nat! (tk 4))
+    pure (.boundary d pos offs)
+  | "alignment" => do
+    let pos ← num? (tk 3)
+    let offs ← parseOffs t 6 (nat! (tk 5))
+    pure (.alignment d pos (tk 4 == "1") offs)
+  | "separation" => do
+    let gap ← num? (tk 5)
+    pure (.separation d (nat! (tk 3)) (nat! (tk 4)) gap (tk 6 == "1"))
+  | "sepalign" => do
+    let gap ← num? (tk 5)
+    pure (.sepAlign d (nat! (tk 3)) (nat! (tk 4)) gap (tk 6 == "1"))
+  | "multisep" => do
+    let sep ← num? (tk 3)
+    pure (.multiSep d sep (tk 4 == "1") (parsePairs t 6 (nat! (tk 5))))
+  | "distribution" => do
+    let sep ← num? (tk 3)
+    pure (.distribution d sep (parsePairs t 5 (nat! (tk 4))))
+  | "fixedrel" =>
+    let k := nat! (tk 3)
+    let ids := (List.range k).map fun j => nat! (tk (4 + j))
+    pure (mkFixedRel rects ids (tk 2 == "1"))
+  | "pagebounds" => do
+    let xl ← num? (tk 2); let xh ← num? (tk 3); let yl ← num? (tk 4); let yh ← num? (tk 5); let w ← num? (tk 6)
+    let k := nat! (tk 7)
+    let shapes ← (List.range k).mapM fun j => do
+      let hw ← num? (tk (8 + 3 * j + 1)); let hh ← num? (tk (8 + 3 * j + 2))
+      pure (nat! (tk (8 + 3 * j)), hw, hh)
+    pure (.pageBounds xl xh yl yh w shapes)
+  | _ => none
+
+def parseRects (c : Case) (key : String) : Option (Array Rect) :=
+  (c.get key).mapM fun l => do
+    let v ← nums? (l.extract 1 5)
+    pure { minX := v[0]!, maxX := v[1]!, minY := v[2]!, maxY := v[3]! }
+
+def parseScene (c : Case) : Option (Array Rect × List CC) := do
+  let rects ← parseRects c "rect"
+  let ccs ← (c.get "cc").toList.mapM (parseCC rects)
+  pure (rects, ccs)
+
+def ccKind : CC → String
+  | .boundary .. => "boundary" | .alignment .. => "alignment" | .separation .. => "separation"
+  | .sepAlign .. => "sepalign" | .multiSep .. => "multisep" | .distribution .. => "distribution"
+  | .fixedRel .. => "fixedrel" | .pageBounds .. => "pagebounds"
+
+def errString : Option GenErr → String
+  | none => "none"
+  | some (.invalidIndex cc i) => s!"invalidindex {cc} {i}"
+  | some (.invalidConstraint cc) => s!"invalidconstraint {cc}"
+  | some (.undefinedBehaviour cc) => s!"UB {cc}"
+
+def showSep (s : TSep) : String :=
+  s!"({s.sep.left},{s.sep.right},{ratToString s.sep.gap},{s.sep.eq},cc{s.creator})"
+
+/-- tie: exact comparison of generated variables / constraints -/
+def checkGen (c : Case) : CaseResult := Id.run do
+  let some (rects, ccs) := parseScene c | return { verdict := .diverge "unparsable case" }
+  let first := nat! (((c.get1 "first").getD #["0"])[0]!)
+  let mut prev : List Aux := []
+  let mut ncons := 0
+  let mut stats : List (String × Nat) := []
+  for cc in ccs do stats := bumpStats stats ("gen.cc." ++ ccKind cc) 1
+  for dn in [first, 1 - first] do
+    let d := Dim.ofNat' dn
+    let res := generate d ccs (nodeVars d rects) prev
+    prev := res.aux
+    -- implementation's dump for this dimension
+    let ivars := (c.get "var").filter (fun l => l[0]! == toString dn)
+    let icons := (c.get "con").filter (fun l => l[0]! == toString dn)
+    let iexc := ((c.get "exc").filter (fun l => l[0]! == toString dn))[0]?.getD #[]
+    let iexcS := " ".intercalate (iexc.extract 1 iexc.size).toList
+    if iexcS != errString res.err then
+      return { verdict := .diverge s!"dim {dn}: exception impl '{iexcS}' model '{errString res.err}'", stats := stats }
+    if ivars.size != res.vars.size then
+      return { verdict := .diverge s!"dim {dn}: {ivars.size} variables generated, model {res.vars.size}", stats := stats }
+    for i in [0:ivars.size] do
+      let l := ivars[i]!
+      let mv := res.vars[i]!
+      let ok := nat! l[1]! == i && num? l[2]! == some mv.desired && num? l[3]! == some mv.weight
+                && (l[4]! == "1") == mv.fixed && num? l[5]! == some 1
+      if !ok then
+        return { verdict := .diverge s!"dim {dn}: variable {i}: impl {l} model desired={ratToString mv.desired} weight={ratToString mv.weight} fixed={mv.fixed}", stats := stats }
+    if icons.size != res.seps.length then
+      return { verdict := .diverge s!"dim {dn}: {icons.size} constraints generated, model {res.seps.length}: {res.seps.map showSep}", stats := stats }
+    for i in [0:icons.size] do
+      let l := icons[i]!
+      let ms := res.seps[i]!
+      let ok := nat! l[1]! == ms.sep.left && nat! l[2]! == ms.sep.right && num? l[3]! == some ms.sep.gap
+                && (l[4]! == "1") == ms.sep.eq && int! l[5]! == (ms.creator : Int)
+      if !ok then
+        return { verdict := .diverge s!"dim {dn}: constraint {i}: impl {l} model {showSep ms}", stats := stats }
+    ncons := ncons + icons.size
+    match res.err with
+    | some (.invalidIndex ..) => stats := bumpStats stats "gen.err.invalidIndex" 1
+    | some (.invalidConstraint ..) => stats := bumpStats stats "gen.err.invalidConstraint" 1
+    | some (.undefinedBehaviour ..) => stats := bumpStats stats "gen.err.UB" 1
+    | none => pure ()
+  stats := bumpStats stats "gen.constraints" ncons
+  return { verdict := .ok, nontrivial := ncons > 0, stats := stats }
+
+/-- centres of the final rectangles, per dimension -/
+def centres (rs : Array Rect) : Dim → Nat → Rat := fun d i => (rs.getD i default).centre d
+
+def reportedOf (c : Case) : List Nat :=
+  ((c.get "unsat").toList.filterMap fun l =>
+    let j := int! (l[5]?.getD "-9")
+    if j ≥ 0 then some j.toNat else none).eraseDups
+
+def allFinite (c : Case) (key : String) : Bool :=
+  (c.get key).all fun l => (l.extract 1 5).all fun s => match dbl? s with | some d => d.isFinite | none => false
+
+def checkLayout (c : Case) : CaseResult := Id.run do
+  let some (rects, ccs) := parseScene c | return { verdict := .diverge "unparsable case" }
+  let mut stats : List (String × Nat) := []
+  let str (k : String) : String := (((c.get1 k).getD #["?"])[0]?).getD "?"
+  stats := bumpStats stats ("graph." ++ str "graph") 1
+  stats := bumpStats stats ("start." ++ str "start") 1
+  stats := bumpStats stats ("overlap." ++ str "overlap") 1
+  stats := bumpStats stats ("nstress." ++ str "nstress") 1
+  for cc in ccs do stats := bumpStats stats ("lay.cc." ++ ccKind cc) 1
+  match c.get1 "hang" with
+  | some l => return { verdict := .specfail s!"hang: the layout call did not return within {l[0]?.getD "?"} s (algo={str "algo"}, planted={str "planted"})", stats := stats }
+  | none => pure ()
+  if !(allFinite c "out") then
+    return { verdict := .specfail "non-finite coordinate in the final rectangles", stats := stats }
+  let some outs := parseRects c "out" | return { verdict := .diverge "unparsable output" }
+  if outs.size != rects.size then
+    return { verdict := .diverge s!"{outs.size} output rectangles for {rects.size} nodes", stats := stats }
+  let reported := reportedOf c
+  stats := bumpStats stats "lay.reported" reported.length
+  if !reported.isEmpty then stats := bumpStats stats "lay.cases_with_reports" 1
+  let pos := centres outs
+  let bad := violated tolC07 ccs pos reported
+  let moved := outs != rects
+  let exc := str "exc"
+  match bad with
+  | j :: _ =>
+    let kind := match ccs[j]? with | some cc => ccKind cc | none => "?"
+    let algo := str "algo"
+    let cls := if algo == "fdmf" then "makeFeasible-only"
+               else if (algo == "fdrun" || algo == "fdmfrun") && str "planted" == "1" then "fd-run,planted-unsat"
+               else "other"
+    return { verdict := .specfail s!"unreported-violation[{cls}] cc{j} {kind}: violated by more than 1e-4 and not in the unsatisfiable lists (reported: {reported}; all violated: {bad}; exc={exc})",
+             stats := stats }
+  | [] =>
+    if exc != "none" then
+      return { verdict := .diverge s!"exception escaped the layout call: {exc}", stats := stats }
+    return { verdict := .ok, nontrivial := moved && !ccs.isEmpty, stats := stats }
+
+def checkSizes (c : Case) : CaseResult := Id.run do
+  let parse (key : String) : Option (List (Rat × Rat)) :=
+    (c.get key).toList.mapM fun l => do
+      let w ← num? (l[0]?.getD ""); let h ← num? (l[1]?.getD ""); pure (w, h)
+  let some b := parse "size0" | return { verdict := .specfail "non-finite size before layout" }
+  let some a := parse "size1" | return { verdict := .specfail "non-finite size after layout" }
+  if sizesSame b a then return { verdict := .ok, nontrivial := !b.isEmpty }
+  -- classify: rounding-level drift (relative 1e-9, the bound asserted in Rectangle::moveMinX) or more
+  let mut worst : Rat := 0
+  let mut gross := false
+  for (p, q) in b.zip a do
+    for (u, v) in [(p.1, q.1), (p.2, q.2)] do
+      let d := absR (u - v)
+      if d > worst then worst := d
+      if d > (1 / 1000000000 : Rat) then gross := true
+  let idx := (b.zip a).findIdx (fun pq => pq.1 != pq.2)
+  if gross || a.length != b.length then
+    return { verdict := .specfail s!"size-changed node {idx}: width/height differ by {ratToString worst}" }
+  return { verdict := .specfail s!"size-rounding node {idx}: width()/height() changed bitwise (max |diff| = {ratToString worst}, below 1e-9)" }
+
+def run (_args : List String) : IO UInt32 :=
+  runCases (fun c =>
+    if c.tag.startsWith "gen" then checkGen c
+    else if c.tag.startsWith "sizes" then checkSizes c
+    else checkLayout c)
 
 end Driver.C07
